@@ -40,7 +40,8 @@ R3_FROZEN = {
 }
 USER_HOOKS = {"parsed"}   # Construct.parsed: documented user hook ("parsed hooks"), a user callback by definition
 EXTERNAL_RAISERS = {
-    ("struct", "unpack"): "struct.error", ("struct", "pack"): "struct.error", ("struct", "calcsize"): "struct.error",
+    ("struct", "unpack"): ("struct.error",), ("struct", "calcsize"): ("struct.error",),
+    ("struct", "pack"): ("struct.error", "OverflowError"),      # "float too large to pack with e/f format" is an OverflowError
 }
 METHOD_RAISERS = {"decode": "UnicodeError", "encode": "UnicodeError", "to_bytes": "OverflowError"}
 
@@ -86,9 +87,8 @@ def check_rawio(ctx, fi, self_cls, rule="C06.R1"):
     return len(seen)
 
 
-def helper_checks(ctx):
+def helper_checks(ctx, rule="C06.R2"):
     M = ctx.model
-    rule = "C06.R2"
     length, data, stream = ("param", "length"), ("param", "data"), STREAM
     # every helper: raw call translated, path carried
     for name in ("stream_read", "stream_read_entire", "stream_write", "stream_seek", "stream_tell"):
@@ -183,7 +183,7 @@ def raiser_classes(e, esc):
     if f[0] == "attr":
         b = f[1]
         if b[0] in ("module", "free") and (b[1], f[2]) in EXTERNAL_RAISERS:
-            return {EXTERNAL_RAISERS[(b[1], f[2])]}
+            return set(EXTERNAL_RAISERS[(b[1], f[2])])
         if f[2] in METHOD_RAISERS and b[0] not in ("module",) and root_of(b) != SELF:
             return {METHOD_RAISERS[f[2]]}
     if e["callee"] in ("value", "closure"):
